@@ -33,6 +33,7 @@ import ODataVerif.Spec.RelSem
 import ODataVerif.Spec.RelElab
 import ODataVerif.Model.OrmRel
 import ODataVerif.Spec.OrmRelSem
+import ODataVerif.Spec.NumFn
 open OQ OQ.Wire
 
 def encTok : Tok → String
@@ -321,6 +322,18 @@ def handle (args : List String) : String :=
                  | _, none => "noelab")
             | .foreign "unmodelled" => "unmodelled"
             | o => encOutcome (fun _ => "") o)
+  | ["numfn", fn, cmp, n, cells] =>
+      -- Spec.NumFn: `fn(col) cmp n` on cells given in quarters (`n` = NULL): T / F / U per cell
+      (match (match fn with | "floor" => some Spec.RoundFn.floor | "ceiling" => some .ceiling | "round" => some .round | _ => none),
+             (match cmp with | "eq" => some Spec.CmpK.eq | "ne" => some .ne | "lt" => some .lt | "le" => some .le | "gt" => some .gt | "ge" => some .ge | _ => none),
+             n.toInt? with
+       | some f, some k, some nv =>
+           " ".intercalate ((cells.splitOn ",").map (fun c =>
+             if c == "n" then encV3 (Spec.numFnHolds f k nv none)
+             else match c.toInt? with
+                  | some q => encV3 (Spec.numFnHolds f k nv (some q))
+                  | none => "bad-cell"))
+       | _, _, _ => "bad-arg")
   | ["releval", tbl, w, dbs] =>
       -- RelSem on every row of the root table: T / F / U per row (in table order); "noelab" / "noschema"
       withExpr w (fun e =>
